@@ -85,6 +85,7 @@ type c12Env struct {
 }
 
 func c12Run(c *fw.Ctx) {
+	c.Retries = 2 // socket-based harness: tolerate a transient glitch while replaying a prefix
 	vtime.SetManual(harness.T0)
 	defer vtime.SetReal()
 	key, err := rsa.GenerateKey(rand.Reader, 2048)
